@@ -232,6 +232,12 @@ Record fsview := mk_fsview {
   fs_cart : bytes -> option (list bytes)         (* P8Formatter / P8PNGFormatter .from_file(do_includes=False).lua.to_lines() *)
 }.
 
-Definition fs_target (fs : fsview) (p ext : bytes) : option (list bytes) :=
-  if is_cart_ext ext then fs_cart fs p
+(* what a target yields.  A cart (cart_kind as regenerated, include_cart_lines_kind): 0 = the chunks of the
+   reader's to_lines() as they are; 1 = the text lines of the joined code, io.BytesIO(b''.join(...)) *)
+Definition fs_target (cart_kind : Z) (fs : fsview) (p ext : bytes) : option (list bytes) :=
+  if is_cart_ext ext then
+    match fs_cart fs p with
+    | Some chunks => Some (if cart_kind =? 0 then chunks else file_lines (concat chunks))
+    | None => None
+    end
   else match fs_read fs p with Some b => Some (file_lines b) | None => None end.
